@@ -4499,7 +4499,24 @@ enum ImplicitFunctionParameter {
 impl<'m> GenerateContext<'m> {
     /// Start a new generate state
     fn new(module: &'m ir::Module, mesh_layout: Option<MeshOutputLayout>) -> Self {
-        let name_map = NameMap::build(module, RESERVED_NAMES, false);
+        // Globals that are not constants are passed between functions as parameters
+        let mut parameter_globals = Vec::new();
+        for i in 0..module.global_registry.len() {
+            let def = &module.global_registry[i];
+            let is_const = module.type_registry.is_const(def.type_id);
+            let is_global_constant = (is_const && def.storage_class == ir::GlobalStorage::Static)
+                || def.static_sampler.is_some();
+            if !def.is_intrinsic && !is_global_constant {
+                parameter_globals.push(ir::GlobalId(i as u32));
+            }
+        }
+
+        let name_map = NameMap::build_with_parameter_globals(
+            module,
+            RESERVED_NAMES,
+            false,
+            &parameter_globals,
+        );
 
         GenerateContext {
             module,
